@@ -115,3 +115,15 @@ func VerifMetricLine() {
 	vnd.Assert(err == nil && got == count, "sample value equals the counter")
 	vnd.Cover(len(v1) == n && count < 0, "full-length value and negative counter")
 }
+
+// VerifCounterBoundaries: counters at the edges of the integer range and just beyond the integers a
+// float64 holds exactly: the sample value is the counter, digit for digit.
+func VerifCounterBoundaries() {
+	vals := []int64{0, -1, 1<<53 + 1, 1<<53 - 1, 1<<63 - 1, -1 << 63, 999999999999999999}
+	want := []string{"0", "-1", "9007199254740993", "9007199254740991", "9223372036854775807", "-9223372036854775808", "999999999999999999"}
+	i := vnd.Choose("counter", len(vals))
+	var out strings.Builder
+	metric(&out, "bytes_received", "", vals[i])
+	vnd.Assert(out.String() == "bytes_received "+want[i]+"\n", "the sample value is the counter, digit for digit")
+	vnd.Cover(i == 2, "first integer a float64 cannot hold")
+}
